@@ -234,6 +234,103 @@ func runC13Case(c *Ctx, idx int) {
 			return
 		}
 	}
+	// round 2: more entries arrive after the expiry - through Stack.Add or through
+	// NewAddition/Add/Commit on the same handle - and the SAME configuration is applied
+	// again: it must expire exactly the newly arrived entries it covers (an expiry is a
+	// function of the stack's content, not of what was asked before)
+	if ntab > 0 && rng.Chance(0.6) {
+		m2 := model.Clone()
+		for k, l := range m2.Logs {
+			if l.Del || !keepLog(&l, e) {
+				delete(m2.Logs, k)
+			}
+		}
+		for k, rf := range m2.Refs {
+			if rf.Kind == gen.KDel {
+				delete(m2.Refs, k)
+			}
+		}
+		nnew := 1 + rng.Intn(2)
+		via := "add"
+		if rng.Chance(0.6) {
+			via = "newaddition"
+		}
+		for j := 0; j < nnew; j++ {
+			t := &gen.Txn{ID: 500 + j}
+			for _, k := range keys {
+				if rng.Chance(0.7) {
+					tm := times[rng.Intn(len(times))]
+					t.Logs = append(t.Logs, gen.Log{Name: k, New: gen.IDHash(500+j, 0, hs), User: "u", Email: "e", Time: tm, TZ: 30, Msg: fmt.Sprintf("late t%d", 500+j)})
+				}
+			}
+			if len(t.Logs) == 0 {
+				t.Logs = append(t.Logs, gen.Log{Name: keys[0], New: gen.IDHash(500+j, 0, hs), User: "u", Email: "e", Time: times[1+rng.Intn(5)], Msg: "late"})
+			}
+			var ui uint64
+			var err error
+			if via == "add" {
+				ui, err = stx.Apply(st, t)
+			} else {
+				err = rtx.Safe(func() error {
+					add, err := st.NewAddition()
+					if err != nil {
+						return err
+					}
+					defer add.Close()
+					ui = st.NextUpdateIndex()
+					if err := add.Add(func(w *reftable.Writer) error { return stx.WriteTxn(w, t, ui) }); err != nil {
+						return err
+					}
+					return add.Commit()
+				})
+			}
+			hc.Ops = append(hc.Ops, fmt.Sprintf("round 2: %s t%d logs=%d ui=%d -> %v", via, t.ID, len(t.Logs), ui, err))
+			if err != nil {
+				fail([]string{"C04"}, "setup-add-failed|"+errClass(err), fmt.Sprintf("%s after an expiry failed: %v %s", via, err, PanicDetail(err)))
+				return
+			}
+			m2.Apply(t, ui)
+		}
+		wantRefs2, before2 := m2.View()
+		var wantLogs2 []gen.Log
+		for i := range before2 {
+			if keepLog(&before2[i], e) {
+				wantLogs2 = append(wantLogs2, before2[i])
+			}
+		}
+		r.Evaluations++
+		desc2 := fmt.Sprintf("round 2 (%d transactions via %s, then the same CompactAll(Time=%d Min=%d Max=%d)): %d log entries -> expect %d", nnew, via, e.Time, e.MinUpdateIndex, e.MaxUpdateIndex, len(before2), len(wantLogs2))
+		hc.Ops = append(hc.Ops, desc2)
+		if err := rtx.Safe(func() error { return st.CompactAll(e) }); err != nil {
+			fail([]string{"C13"}, "second-expiry-error", fmt.Sprintf("%s failed: %v %s", desc2, err, PanicDetail(err)))
+			return
+		}
+		want2 := gen.Dump(wantRefs2, wantLogs2)
+		refs, logs, err := stx.View(st)
+		if err != nil {
+			fail([]string{"C13", "C10"}, "view-error-after-expiry|"+errClass(err), err.Error())
+			return
+		}
+		if got := gen.Dump(refs, logs); got != want2 {
+			cls := mismatchClass(wantRefs2, wantLogs2, refs, logs)
+			if len(logs) > len(wantLogs2) {
+				cls = "expired-entry-kept"
+			} else if len(logs) < len(wantLogs2) {
+				cls = "live-entry-removed"
+			}
+			fail([]string{"C13"}, "repeated-config|same-handle|"+cls, fmt.Sprintf("%s: %s", desc2, gen.DiffLines(want2, got)))
+			return
+		}
+		if fd, _, err := stx.FreshView(dir, cfg); err != nil || fd != want2 {
+			fail([]string{"C13"}, "repeated-config|fresh-handle|mismatch", fmt.Sprintf("%s: err %v %s", desc2, err, gen.DiffLines(want2, fd)))
+			return
+		}
+		r.Count("repeated_config_rounds", 1)
+		if len(before2) > len(wantLogs2) {
+			r.Count("repeated_config_rounds_expiring_new_entries", 1)
+			r.Nontrivial(rep.Hash("c13r2", fmt.Sprint(c.Seed), fmt.Sprint(idx)))
+		}
+	}
 	if idx%131 == 0 {
 		r.Sample(map[string]interface{}{"index": idx, "cfg": gcfg.String(), "ops": hc.Ops})
 	}
